@@ -136,7 +136,7 @@ def expected_indices(start, stop, D, ct, graded, reverse):
             if lo is None or up is None:
                 unsure = True
                 continue
-            if lo != up:
+            if up and not lo:               # between the bounds: inside the upper truncation, not inside the lower one
                 out.append(tuple(x))
     out.sort(key=lambda c: col_key(c, graded, reverse))
     return out, unsure
@@ -148,7 +148,8 @@ def gen_index(tier, rng):
     for D in dims:
         tops = range(0, 5 if D < 4 else 4)
         for stop in tops:
-            for start in range(0, stop + 1):
+            # (start above stop included: nothing lies between such bounds)
+            for start in range(0, min(stop + 3, 6)):
                 for ct in cts:
                     for g in (False, True):
                         for r in (False, True):
@@ -156,7 +157,7 @@ def gen_index(tier, rng):
         n = 10 if tier != "thorough" else 60
         for _ in range(n):
             stop = [rng.randint(0, 4) for _ in range(D)]
-            start = [rng.randint(0, s) for s in stop] if rng.random() < 0.5 else 0
+            start = [rng.randint(0, s + (2 if rng.random() < 0.2 else 0)) for s in stop] if rng.random() < 0.5 else 0
             yield {"start": start, "stop": stop, "D": D, "ct": rng.choice(cts), "graded": rng.random() < 0.5,
                    "reverse": rng.random() < 0.5}
             if D > 1:
@@ -185,7 +186,7 @@ def _ct(v):
 
 
 @check("C18", "glexindex.exact", gen_index, functions=("numpoly.glexindex", "numpoly.cross_truncate", "numpoly.glexsort"),
-       note="bounded: start<=stop<=4, dimensions<=3 (4 thorough), norms {0,.5,1,2,inf}, all flag combinations, "
+       note="bounded: stop<=4, start<=stop+2 (start above stop: empty result), dimensions<=3 (4 thorough), norms {0,.5,1,2,inf}, all flag combinations, "
             "against brute-force enumeration; exhaustive over this grid; per-dimension bounds also with `dimensions` omitted")
 def glexindex_exact(inp):
     import numpoly
